@@ -255,26 +255,6 @@ IsGoAway(f) == f.t = "GOAWAY"
 \* the model-internal frames (header fields as tokens) the call of this step appends
 CallOutTokens == Call(Pre, ResolveCall(last.c)).ep.out
 
-\* C01/C13: between two deviation-free endpoints every delivery of the peer's frames is accepted
-\* Exempt (C01): an endpoint that has itself already closed the connection, and everything after any endpoint closed it
-\* (frames sent to a closed peer).  Not demanded here (known finding sent_body_length_unchecked): the library lets an
-\* application send a body that contradicts the content-length it declared, and a header list larger than the peer's
-\* MAX_HEADER_LIST_SIZE (known finding sent_header_list_unchecked); the receiving side refuses both.
-P_C01_DeliveredSendsAccepted ==
-  (Pair /\ HasSrc /\ last.a = "dlv" /\ AllClean /\ \A x \in Roles : src[1][x].conn # "CLOSED"
-        \* (with outbound validation or normalisation switched off the application can send what no peer accepts)
-        /\ \A y \in Roles : src[1][y].cfg.vo /\ src[1][y].cfg.no)
-     => \/ ROk
-        \/ last.p.r.c \in {"InvalidBodyLengthError", "DenialOfServiceError"}
-        \* known finding sent_content_length_unparsed: a content-length that is not a number goes out (outbound validation
-        \* does not look at it); the receiving endpoint refuses the block
-        \/ /\ last.p.r.c = "ProtocolError"
-           /\ \E i \in 1..Len(InFrames) : InFrames[i].t \in {"HEADERS", "PP"} /\ HasCL(InFrames[i].h) /\ ~CLTok(InFrames[i].h).ci
-        \* known finding sent_window_overflow_unchecked: update_settings announces an INITIAL_WINDOW_SIZE that, added to a stream
-        \* window the same endpoint enlarged with increment_flow_control_window, exceeds 2^31-1 at the peer
-        \* (the announcing endpoint fails in the same way when the acknowledgement comes back)
-        \/ /\ last.p.r.c = "FlowControlError"
-           /\ \E i \in 1..Len(InFrames) : InFrames[i].t = "SET" /\ (InFrames[i].ack \/ \E j \in 1..Len(InFrames[i].s) : InFrames[i].s[j][1] = 4)
 \* C13: the HPACK encoder context becomes unpredictable only through a marked failed-send deviation
 \* (or through a table size the peer was never told about: known finding hpack_size_update_dropped)
 P_C13_CleanSendsDecode == \A x \in Roles : eps[x].hd => eps[x].dev \cap {"failed_send_partial_state", "hpack_size_update_dropped"} # {}
@@ -405,6 +385,31 @@ P_C15_DeliveredBlocksConformant ==
      LET h == CombineCookies(FrameTokens(F1)) IN
      /\ (ROk /\ Count(last.p.e, IsHdrEvent) > 0) => \A j \in 1..Len(h) : InTokOK(h[j]) /\ ~OutOfSeq(h, j)
      /\ (\E j \in 1..Len(h) : ~InTokOK(h[j]) \/ OutOfSeq(h, j)) => Count(last.p.e, IsHdrEvent) = 0
+\* C01/C13: between two deviation-free endpoints every delivery of the peer's frames is accepted
+\* Exempt (C01): an endpoint that has itself already closed the connection, and everything after any endpoint closed it
+\* (frames sent to a closed peer).  Not demanded here (known finding sent_body_length_unchecked): the library lets an
+\* application send a body that contradicts the content-length it declared, and a header list larger than the peer's
+\* MAX_HEADER_LIST_SIZE (known finding sent_header_list_unchecked); the receiving side refuses both.
+P_C01_DeliveredSendsAccepted ==
+  (Pair /\ HasSrc /\ last.a = "dlv" /\ AllClean /\ \A x \in Roles : src[1][x].conn # "CLOSED"
+        \* (with outbound validation or normalisation switched off the application can send what no peer accepts)
+        /\ \A y \in Roles : src[1][y].cfg.vo /\ src[1][y].cfg.no)
+     => \/ ROk
+        \/ last.p.r.c \in {"InvalidBodyLengthError", "DenialOfServiceError"}
+        \* known finding sent_content_length_unparsed: a content-length that is not a number goes out (outbound validation
+        \* does not look at it); the receiving endpoint refuses the block
+        \/ /\ last.p.r.c = "ProtocolError"
+           /\ \E i \in 1..Len(InFrames) : InFrames[i].t \in {"HEADERS", "PP"} /\ HasCL(InFrames[i].h) /\ ~CLTok(InFrames[i].h).ci
+        \* known finding sent_block_fails_inbound_rules: outbound validation is weaker than the library's own inbound
+        \* validation (e.g. a field with an empty name goes out); the receiving endpoint refuses the block
+        \/ /\ last.p.r.c = "ProtocolError"
+           /\ \E i \in 1..Len(InFrames) : InFrames[i].t \in {"HEADERS", "PP"} /\
+                 LET h == CombineCookies(InFrames[i].h) IN \E j \in 1..Len(h) : ~InTokOK(h[j]) \/ OutOfSeq(h, j)
+        \* known finding sent_window_overflow_unchecked: update_settings announces an INITIAL_WINDOW_SIZE that, added to a stream
+        \* window the same endpoint enlarged with increment_flow_control_window, exceeds 2^31-1 at the peer
+        \* (the announcing endpoint fails in the same way when the acknowledgement comes back)
+        \/ /\ last.p.r.c = "FlowControlError"
+           /\ \E i \in 1..Len(InFrames) : InFrames[i].t = "SET" /\ (InFrames[i].ack \/ \E j \in 1..Len(InFrames[i].s) : InFrames[i].s[j][1] = 4)
 \* C16: DATA against content-length
 P_C16_ContentLength ==
   (OneFrame("DATA") /\ Has(Pre, F1.sid) /\ ~Excused({"content_length_rule_differs"})) =>
